@@ -130,10 +130,10 @@ class Evaluator:
                 discr = fn.expr_operand(t["op"])
                 listed = [v for v, _ in t["targets"]]
                 for v, tgt in t["targets"]:
-                    if tgt != t["otherwise"] and (tgt == b or fn.edge_dominates(s, tgt, b)) and s != b:
+                    if tgt != t["otherwise"] and sum(1 for _, t2 in t["targets"] if t2 == tgt) == 1 and fn.edge_dominates(s, tgt, b) and s != b:
                         out.append(("eqval", discr, v, t["opty"]))
                 o = t["otherwise"]
-                if all(o != tgt for _, tgt in t["targets"]) and (o == b or fn.edge_dominates(s, o, b)) and s != b:
+                if all(o != tgt for _, tgt in t["targets"]) and fn.edge_dominates(s, o, b) and s != b:
                     out.append(("notin", discr, tuple(listed), t["opty"]))
             elif t["k"] == "assert" and s != b:
                 out.append(("eqval", fn.expr_operand(t["cond"]), 1 if t["expected"] else 0, "bool"))
@@ -435,7 +435,11 @@ class Evaluator:
             else:
                 blo, bhi = b.lo, b.hi
             if a.lo >= 0 and blo > 0:
-                r = AV(a.lo // bhi, a.hi // blo)
+                if blo == bhi and a.m > 1 and a.m % blo == 0 and a.r % blo == 0:
+                    # exact division of a congruence class: x = r (mod m), c | m, c | r  =>  x/c = r/c (mod m/c)
+                    r = AV(a.lo // blo, a.hi // blo, a.m // blo, a.r // blo)
+                else:
+                    r = AV(a.lo // bhi, a.hi // blo)
             else:
                 c = [int(a.lo / blo), int(a.lo / bhi), int(a.hi / blo), int(a.hi / bhi)]
                 r = AV(min(c), max(c))
@@ -501,6 +505,10 @@ class Evaluator:
                     hi = rng[1]
                 return AV(lo, hi)
             if meth in ("trailing_zeros", "leading_zeros"):
+                if meth == "trailing_zeros" and a.m > 1 and a.m & (a.m - 1) == 0 and a.r % a.m != 0:
+                    r = a.r % a.m       # x = r (mod 2^j), r != 0  =>  tz(x) = tz(r) exactly
+                    tz = (r & -r).bit_length() - 1
+                    return AV(tz, tz)
                 if meth == "trailing_zeros" and a.lo >= 1:
                     return AV(0, floor_log2(a.hi))
                 return AV(0, bits)
